@@ -1,7 +1,8 @@
 """C08 — auto-design turns any well-formed topology into a complete line system.
 
 Correspondence: add_missing_elements_in_network + add_missing_fiber_attributes (real DiGraph, real elements) vs
-Gnpy.Chain.addMissingLine / addConn / addPadding per chain; calculate_new_length vs Gnpy.Chain.calcNewLength.
+Gnpy.Chain.addMissingLine / addConn / addPadding per chain; the edge list of the designed DiGraph vs
+Gnpy.Chain.toGraph of the completed chains; calculate_new_length vs Gnpy.Chain.calcNewLength.
 Monitor: the statement on the designed DiGraph (own graph walk, own arithmetic).
 """
 import os
@@ -21,7 +22,8 @@ LEAN_MODULES = ['GnpyProofs.Props.C08']
 THEOREMS = [f'Gnpy.Chain.{t}' for t in (
     'floorDiv_spec', 'calcNewLength_spec', 'calcNewLength_short', 'calcNewLength_long', 'split_preserves_length_and_loss',
     'split_preserves_total_loss', 'split_spans_equal', 'splitLine_kinds', 'no_adjacent_fibres', 'roadm_fibre_junction_amplified',
-    'original_order_preserved', 'addMissing_endpoints', 'names_unique_partial', 'connectors_defined',
+    'original_order_preserved', 'addMissing_endpoints', 'one_in_one_out', 'endpoints_degree', 'chain_is_path',
+    'reachability_unchanged', 'names_unique_partial', 'connectors_defined',
     'padding_reached', 'padRun_dsl', 'padRun_fused_edge_unpadded_fails_current',
     'padRun_idempotent', 'amps_complete')]
 RULE = ('cases from one PRNG: (a) 75 % star topologies (hub ROADM of degree 1-5, one chain per direction of 1-8 line '
@@ -257,6 +259,21 @@ def run_design(case, drv):
             res.fail(f'chain lost: the line from {ch["src"]} to {ch["dst"]} cannot be followed after design')
             continue
         compare_chain(res, f'chain[{ch["src"]}->{ch["dst"]}]', a['line'], post[i])
+
+    # ---- the whole DiGraph against toGraph of the model's completed chains (edges over uids, exact) ---------------------------
+    kind = {'R': 'roadm', 'T': 'trx'}
+    mchains = [model_chain(case, ch, recs, lo, hi, target)['chain'] for ch, recs in zip(chains, pre)]
+    for i in range(case['k'] + 1):          # the transceiver <-> ROADM connections are chains without line elements
+        mchains.append({'src': f'T{i}', 'src_kind': 'trx', 'dst': f'R{i}', 'dst_kind': 'roadm', 'line': []})
+        mchains.append({'src': f'R{i}', 'src_kind': 'roadm', 'dst': f'T{i}', 'dst_kind': 'trx', 'line': []})
+    if case.get('trx_src'):
+        mchains.append({'src': 'R0', 'src_kind': 'roadm', 'dst': 'TX', 'dst_kind': 'trx', 'line': []})
+    sp_ = case['span']
+    g = drv.ask('c08.graph', chains=mchains, lo=f2b(lo), hi=f2b(hi), target=f2b(target), con_in=f2b(sp_['con_in']),
+                con_out=f2b(sp_['con_out']), eol=f2b(sp_['EOL']), padding=f2b(sp_['padding']))
+    res.cmp_exact('DiGraph.edges', sorted([u.uid, v.uid] for u, v in net.edges()), sorted(g['edges']))
+    res.cmp_exact('endpoint pairs', sorted(p for p in reach_before if p[1] is not None),
+                  sorted(tuple(p) for p in g['pairs']))
 
     # ---- monitor: the statement on the designed DiGraph ------------------------------------------------------------------
     st = monitor_design(res, case, eq, net, pre, post, ends, reach_before, hi)
